@@ -190,7 +190,7 @@ def handleP (st : Stats) (f : List String) : IO Stats := do
           let want := mbs.reverse.map (fun m => match m.host with | some h => m.loc ++ [AT] ++ h | none => m.loc)
           let have_ := got.map (fun a => unquote a.reverse)
           if !(arcS == "1" && want == have_) then
-            st ← oracleFail st s!"kind=Pmailboxes in={sh} addrlist_rc={arcS} got={gotS} expected={hexListStr want}"
+            st ← oracleFail st s!"kind=Pmailboxes in={sh} n={nS} E={eS} addrlist_rc={arcS} got={gotS} expected={hexListStr want}"
         | _, _ => st ← disagree st s!"kind=P unparsable expectation {eS} / {gotS}"
       if st.samples < 4 && eS != "X" && s.length > 40 then
         IO.println s!"SAMPLE P n={nS} in={sh} tokens={toksS} unparse={uph} got={gotS}"
@@ -253,7 +253,7 @@ def handleI (clk : Clock) (st : Stats) (f : List String) : IO Stats := do
         -- oracle (7): no Bcc / Resent-Bcc / Return-Path / Content-Length field in the produced header
         let names := fieldNames msg
         if names.any (fun n => hiddenFields.contains n) then
-          st ← oracleFail st s!"kind=Ihidden flags={flagsS} strat={stratS} in={inh} message={msgh}"
+          st ← oracleFail st s!"kind=Ihidden flags={flagsS} strat={stratS} f={fsS} args={recS} env={envS} in={inh} E={eS} message={msgh}"
         if eS != "X" then
           match expectOfStr eS with
           | some ex =>
@@ -272,7 +272,7 @@ def handleI (clk : Clock) (st : Stats) (f : List String) : IO Stats := do
             -- oracle (8): the rewritten header parses again to the same (visible) addresses
             let want2 := if resent then of ['T', 'C'] else of ['t', 'c', 'a']
             if !(ex2S == "0" && sortBytes want2 == sortBytes rcps2) then
-              st ← oracleFail st s!"kind=Ireparse{if angleComment inp then " class=angle-comment" else ""} flags={flagsS} strat={stratS} env={envS} in={inh} E={eS} message={msgh} recipients2={rcp2S} expected={hexListStr want2}"
+              st ← oracleFail st s!"kind=Ireparse{if angleComment inp then " class=angle-comment" else ""} flags={flagsS} strat={stratS} f={fsS} args={recS} env={envS} in={inh} E={eS} message={msgh} recipients2={rcp2S} expected={hexListStr want2}"
           | none => st ← disagree st s!"kind=I unparsable expectation {eS}"
       if st.samples < 6 && eS != "X" && eS != "-" && exS == "0" && inp.length > 60 then
         IO.println s!"SAMPLE I flags={flagsS} strat={stratS} args={recS} in={inh} sender={sndh} recipients={rcpS} message={msgh}"
